@@ -202,7 +202,9 @@ Definition iter_next (ts : tstate) (it : iter) : iter := match inode it with
   | Some k =>
     let refind := existsb (Nat.eqb k) (dead ts) ||
                   match value_at k (tr ts) with Some w => negb (w =? ival it) | None => true end in
-    let nxt := if refind then find_le (wrap64 (ival it + 1)) (tr ts) None
+    let nxt := if refind
+               then (if wrap64 (ival it + 1) <? ival it then None (* value+1 overflowed: nothing larger *)
+                     else find_le (wrap64 (ival it + 1)) (tr ts) None)
                else match succ_of k (tr ts) None with Some x => x | None => None end in
     match nxt with
     | Some (k', v') => {| itree := itree it; inode := Some k'; ival := v' |}
